@@ -175,6 +175,18 @@ def write_frame(pr):
     return out
 
 
+def canaries(pr):
+    def os_not_allowed(pr):
+        unknown = set()
+        for m in A.all_modules(pr.tree):
+            unknown |= {n.split(".")[0] for n, _ in A.imported_names(m)} - (ALLOW - {"os"}) - DENY
+        return [A.bvc("canary", "effect", "no_module_imports_os", not unknown, "src/rp2", str(sorted(unknown)))]
+
+    def no_write_sites(pr):
+        n = len([v for v in write_frame(pr) if v.label.startswith("write_site_")])
+        return [A.bvc("canary", "frame", "the_package_has_no_write_site", n == 0, "src/rp2")]
+    return [("import_allowlist_without_os_must_fail", os_not_allowed), ("write_sites_must_be_found", no_write_sites)]
+
 MANIFEST_ENTRY = {
     "category": "other",
     "text": ("Effect contracts (network / process / file-write frame) stated for every module of the rp2 package and discharged syntactically over the AST of the "
